@@ -14,6 +14,8 @@ import sys
 import tempfile
 
 VERIF = os.path.dirname(os.path.dirname(os.path.abspath(__file__)))
+# ./check is run from here: a snapshot of /verif (git archive) keeps a long sweep independent of edits made meanwhile
+CHECK_DIR = os.environ.get("VERIF_SNAPSHOT", VERIF)
 PROPS = [json.loads(l)["id"] for l in open(os.path.join(VERIF, "properties.jsonl"))]
 
 
@@ -41,7 +43,7 @@ def run_one(hid):
         env2 = dict(os.environ, PYVC_REPO=tmp, PYVC_OUT=outdir, PYVC_JOBS=os.environ.get("HARMLESS_JOBS", "4"))
         det = {}
         for p in PROPS:
-            rc, out = sh(f"./check {p}", cwd=VERIF, env=env2, timeout=1800)
+            rc, out = sh(f"./check {p}", cwd=CHECK_DIR, env=env2, timeout=1800)
             lines = [l[:400] for l in out.splitlines() if l.startswith(("VIOLATION", "UNDECIDED", "CHECKER-ERROR", "BOUNDED-STAND-IN"))]
             det[p] = {"exit": rc, "lines": lines[:6]}
             if rc == 1:
